@@ -125,7 +125,8 @@ def is_instance_of_generic_class(instance: Any) -> bool:
         >>> is_instance_of_generic_class(b2)
         True
     """
-    return Generic in instance.__class__.__bases__
+    # generic by inheritance as well: class Sub(Base[int, T]) has type parameters of its own although Generic is not a direct base
+    return Generic in instance.__class__.__bases__ or len(getattr(instance.__class__, '__parameters__', ())) > 0
 
 
 def _remove_comments_and_spaces_from_src_line(line: str) -> str:
